@@ -50,8 +50,8 @@ pub fn ns_case(max_defs: usize, max_queries: usize) -> BoxedStrategy<NsCase> {
 pub fn compare(q: &Query, lib: &Answer, model: &Answer) -> Verdict {
     match (lib, model) {
         (Answer::Bool(a), Answer::Bool(b)) if a == b => Verdict::Pass,
-        (Answer::Set(a, dup), Answer::Set(b, _)) if a == b => {
-            if *dup {
+        (Answer::Set(a, dup), Answer::Set(b, dup_expected)) if a == b => {
+            if *dup && !*dup_expected {
                 Verdict::fail(format!("C13:{}:duplicates", q.label()), format!("{} returned the same def more than once for {:?}", q.label(), q.to_json()))
             } else {
                 Verdict::Pass
